@@ -4,6 +4,9 @@
    inputs exactly as the implementation received them - and the exact observed value(s)
    (rationals {n, d}).  The expected value is recomputed here from the configuration. *)
 EXTENDS LossSemantics, TLC, TLCExt, Json, IOUtils
+EQ == INSTANCE Equations
+NET == INSTANCE Net
+SP == INSTANCE SpinnPoly
 Recs == JsonDeserialize(IOEnv.TRACE_FILE)
 VARIABLES tid, viol
 vars == <<tid, viol>>
@@ -83,7 +86,55 @@ SysLemmaBad == {k \in DOMAIN Recs : Recs[k].kind = "sysloss" /\ Len(Recs[k].eqs)
                                         ~(s.dyn_loss = p.dyn_loss /\ s.initial_condition = p.initial_condition
                                           /\ s.boundary_loss = p.boundary_loss /\ s.observations = p.observations)}
 
+(* ---------------- C02 built-in equations ---------------- *)
+EquationVerdict(r) ==
+    IF r.exc # "" THEN "EquationRaised"
+    ELSE IF Len(r.obs) # Len(r.pts) THEN "ResultShape"
+    ELSE IF \E p \in DOMAIN r.pts : ~ObsOK(r.obs[p]) THEN "ValueNotExact"
+    ELSE IF \E p \in DOMAIN r.pts : Len(r.obs[p]) # Len(EQ!Residual(r, r.pts[p])) THEN "ResultShape"
+    ELSE IF \E p \in DOMAIN r.pts : [k \in DOMAIN r.obs[p] |-> QV(r.obs[p][k])] # EQ!Residual(r, r.pts[p]) THEN
+            (CASE r.eq = "burgers" -> "BurgersResidual" [] r.eq = "fisher" -> "FisherKPPResidual" [] r.eq = "ou" -> "FokkerPlanckResidual"
+               [] r.eq = "masscons" -> "MassConservationResidual" [] r.eq = "ns" -> "NavierStokesResidual" [] r.eq = "glv" -> "LotkaVolterraResidual")
+    ELSE "ok"
+
+(* ---------------- C10 network wrappers ---------------- *)
+NetExpected(r, k) == IF r.wrapper = "pinn" THEN NET!PinnEval(r, r.ins[k]) ELSE NET!HyperEval(r, r.ins[k])
+SpinnShape(r) == [k \in 1..(r.d + 1) |-> IF k <= r.d THEN r.b ELSE r.M]
+NetVerdict(r) ==
+    IF r.exc # "" THEN "WrapperRaised"
+    ELSE IF r.wrapper = "spinn" THEN
+         (IF r.oshapes # <<SpinnShape(r)>> THEN "SeparableOutputShape"
+          ELSE IF \E n \in DOMAIN r.obs : ~ObsOK(r.obs[n]) THEN "ValueNotExact"
+          ELSE IF \E n \in DOMAIN r.idxs : ObsInts(r.obs[n]) # [m \in 1..r.M |-> NET!SpinnAt(r, r.idxs[n], m)] THEN "SeparableGridValue"
+          ELSE "ok")
+    ELSE IF \E k \in DOMAIN r.ins : Len(r.oshapes[k]) # 1 THEN "OutputRankNotOne"
+    ELSE IF \E k \in DOMAIN r.ins : ~ObsOK(r.obs[k]) THEN "ValueNotExact"
+    ELSE IF \E k \in DOMAIN r.ins : ObsInts(r.obs[k]) # NetExpected(r, k) THEN
+            (IF r.wrapper = "hyper" THEN "HyperNetworkValue" ELSE "WrapperValue")
+    ELSE "ok"
+
+(* ---------------- C11 forward (separable grid) vs reverse (pointwise) ---------------- *)
+FRX(r) == [k \in 1..(r.d - (IF r.withT THEN 1 ELSE 0)) |-> k + (IF r.withT THEN 1 ELSE 0)]       \* spatial variables
+FRExpected(r, idx) ==
+    LET F == SP!Fields(r)  pt == SP!PointOf(r, idx)  X == FRX(r) IN
+    CASE r.op = "lap"      -> <<QI(LapAt(F[1], X, pt))>>
+      [] r.op = "div"      -> <<QI(DivAt(F, X, pt))>>
+      [] r.op = "veclap"   -> [j \in DOMAIN F |-> QI(LapAt(F[j], X, pt))]
+      [] r.op = "adv"      -> [j \in DOMAIN F |-> QI(AdvAt(F, X, pt)[j])]
+      [] r.op = "masscons" -> <<QI(DivAt(F, X, pt))>>
+      [] r.op \in {"burgers", "fisher"} -> EQ!Residual([eq |-> r.op, U |-> F, par |-> r.par, Tmax |-> r.Tmax, dim |-> r.d - 1], pt)
+FRVerdict(r) ==
+    IF r.exc # "" THEN "ForwardOrReverseRaised"
+    ELSE IF Len(r.fwd) # Len(r.idxs) THEN "ForwardGridShape"
+    ELSE IF \E n \in DOMAIN r.idxs : ~ObsOK(r.fwd[n]) \/ ~ObsOK(r.rev[n]) THEN "ValueNotExact"
+    ELSE IF \E n \in DOMAIN r.idxs : [k \in DOMAIN r.rev[n] |-> QV(r.rev[n][k])] # FRExpected(r, r.idxs[n]) THEN "ReverseModeValue"
+    ELSE IF \E n \in DOMAIN r.idxs : [k \in DOMAIN r.fwd[n] |-> QV(r.fwd[n][k])] # FRExpected(r, r.idxs[n]) THEN "ForwardModeGridValue"
+    ELSE "ok"
+
 Verdict == CASE Rec.kind = "operator" -> OperatorVerdict(Rec)
+             [] Rec.kind = "fwdrev" -> FRVerdict(Rec)
+             [] Rec.kind = "net" -> NetVerdict(Rec)
+             [] Rec.kind = "equation" -> EquationVerdict(Rec)
              [] Rec.kind = "sysloss" -> SysVerdict(Rec)
              [] Rec.kind = "grad" -> GradVerdict(Rec)
              [] Rec.kind = "loss" -> LossVerdict(Rec)
